@@ -12,6 +12,7 @@
 #include <fcppt/weak_ptr_fwd.hpp>
 #include <fcppt/detail/make_shared_wrapper.hpp>
 #include <fcppt/config/external_begin.hpp>
+#include <functional>
 #include <memory>
 #include <type_traits>
 #include <utility>
@@ -197,7 +198,7 @@ template <typename Type1, typename Type2, typename Deleter>
 bool fcppt::operator<(
     fcppt::shared_ptr<Type1, Deleter> const &_a, fcppt::shared_ptr<Type2, Deleter> const &_b)
 {
-  return _a.std_ptr() < _b.std_ptr();
+  return std::less<std::common_type_t<Type1 *, Type2 *>>()(_a.get_pointer(), _b.get_pointer());
 }
 
 template <typename Type, typename Deleter>
